@@ -24,6 +24,8 @@ type Result struct {
 	Detail string
 	Kind    string // "" = dataflow
 	Backend string // "" = ssa-dataflow
+	// checks by execution (dynamic, bounded): the test that was run on the real code
+	ReplayPkg, ReplaySrc string
 }
 
 // Reachable computes the functions of /repo reachable from the roots (static calls,
